@@ -736,7 +736,7 @@ def work_items(tier):
     rs = np.random.RandomState(seed() + 1616)
     big = tier == "thorough"
     m = 12 if big else 1
-    counts = {"random": 160 * m, "block": 50 * m, "slab": 6 * m, "cluster": 50 * m, "flat": 60 * m,
+    counts = {"random": 140 * m, "block": 50 * m, "slab": 6 * m, "cluster": 40 * m, "flat": 50 * m,
               "generic": 100 * m, "ties": 60 * m, "dups": 16 * m}
     pcounts = {"planar_random": 60 * m, "planar_generic": 60 * m, "planar_block": 20 * m}
     items = []
